@@ -551,6 +551,15 @@ pub fn k9(dir: &str, thorough: bool, seed: u64) {
     }
     let empty_ctx = scratch(dir, "empty.zip");
     build_result_archive(HashMap::new(), &empty_ctx, "a -> b\nb -| a\n", vec![]).unwrap();
+    // a readable archive whose sets were computed for ANOTHER number of variable sets (here 2; the formula needs none)
+    let other_k = scratch(dir, "otherk.zip");
+    {
+        let bn = BooleanNetwork::try_from("a -> b\nb -| a\n").unwrap();
+        let g2 = get_extended_symbolic_graph(&bn, 2).unwrap();
+        let mut m = HashMap::new();
+        m.insert(s("s0"), g2.mk_unit_colored_vertices());
+        build_result_archive(m, &other_k, "a -> b\nb -| a\n", vec![]).unwrap();
+    }
     let s0_f = scratch(dir, "s0.txt");
     std::fs::write(&s0_f, "EF %s0%\n").unwrap();
     let cases: Vec<(&str, Vec<&str>)> = vec![
@@ -563,6 +572,7 @@ pub fn k9(dir: &str, thorough: bool, seed: u64) {
         ("wild-card without context archive", vec![&good_model, &ctx_f]),
         ("missing context archive", vec![&good_model, &ctx_f, "-e", "/nonexistent.zip"]),
         ("corrupted bdd entry", vec![&good_model, &s0_f, "-e", &corrupt]),
+        ("context archive computed with another number of variable sets", vec![&good_model, &s0_f, "-e", &other_k]),
     ];
     let xg_ok = Xg::new("okm", "a -> b\nb -| a\n", 0).unwrap();
     out.case(&xg_ok.graph_line(), &format!("graph ok points={} premises=ok", xg_ok.num_points()), true);
